@@ -152,23 +152,39 @@ def check(ctx):
 
     # ---- C03.b tracker field symmetry; C03.d claim key; C03.e order ----
     accessor_fields = {}
+    gated_accessors = {}     # tracker -> {method name: field} for accessors that check the flag themselves
+    tracker_flags = {}
     for ty in sorted(trackers):
         tname = ty.split("::")[-1]
         try:
             start = A.method(prog, tname, "start")
             end = A.method(prog, tname, "end")
-            isr = A.method(prog, tname, "is_reacting")
             prep = A.method(prog, tname, "prepare")
         except mir.AnchorLost as e:
             ctx.fail("C03.b", "anchor-lost:%s" % tname, "", str(e))
             continue
+        try:
+            isr = A.method(prog, tname, "is_reacting")
+        except mir.AnchorLost as e:
+            isr = None
         for m in (start, end, isr, prep):
-            ctx.touch(m)
-        flag = returned_field(isr)
-        opt_flag = option_flag(isr) if flag is None else None
+            if m is not None:
+                ctx.touch(m)
+        if isr is not None:
+            flag = returned_field(isr)
+            opt_flag = option_flag(isr) if flag is None else None
+        else:
+            # no flag getter: the tracker hands its data out through *gated* accessors (`fn x(&self) -> Option<..>` that
+            # return Some(field) only where the flag field is true). The flag is the bool field that start() sets to
+            # true and end() sets to false.
+            cands = {f for (b, i, adt, f, rv) in lib.field_writes(start, ty) if "use" in rv and lib.const_val(rv["use"]) == 1} & \
+                    {f for (b, i, adt, f, rv) in lib.field_writes(end, ty) if "use" in rv and lib.const_val(rv["use"]) == 0}
+            flag = cands.pop() if len(cands) == 1 else None
+            opt_flag = None
         if flag is None and opt_flag is None:
-            ctx.fail("C03.b", "%s::is_reacting:anchor-lost:flag-field" % tname, "%s:%d" % (isr.file, isr.line), "is_reacting does not return a field")
+            ctx.fail("C03.b", "%s::is_reacting:anchor-lost:flag-field" % tname, "%s:%d" % ((isr or start).file, (isr or start).line), "is_reacting does not return a field")
             continue
+        tracker_flags[ty] = (flag, isr is not None)
         flag = flag or opt_flag
         sw = [(b, i, rv) for (b, i, adt, f, rv) in lib.field_writes(start, ty) if f == flag]
         ew = [(b, i, rv) for (b, i, adt, f, rv) in lib.field_writes(end, ty) if f == flag]
@@ -219,6 +235,11 @@ def check(ctx):
             f = returned_field(m)
             if f:
                 acc[nm] = f
+            elif opt_flag is None:
+                gf = gated_field(m, ty, flag)
+                if gf:
+                    acc[nm] = gf
+                    gated_accessors.setdefault(ty, {})[nm] = gf
         accessor_fields[ty] = acc
         acc_paths = {m.raw.get("name"): returned_field_path(m) for m in A.methods_of(prog, tname)}
         for nm, f in sorted(acc.items()):
@@ -332,6 +353,10 @@ def check(ctx):
                           "tracker.%s() returns the field %s that start() fills from the claimed entry" % (cb.raw.get("name"), fld),
                           "tracker.%s() is not a plain getter of a field filled by start() (what the reader sees is not the claimed metadata)" % cb.raw.get("name"))
             for b, t, cb, sp in accs:
+                if cb.raw.get("name") in gated_accessors.get(sp, {}):
+                    ctx.ok("C03.c", "%s:%s-gated-by-is_reacting" % (mk, cb.raw.get("name")), m.loc(b),
+                           "tracker.%s() itself returns the field only where the flag is true (gated accessor)" % cb.raw.get("name"))
+                    continue
                 ctx.check(lib.dominated_by_any(m, b, heads.get(sp, [])), "C03.c", "%s:%s-gated-by-is_reacting" % (mk, cb.raw.get("name")),
                           m.loc(b), "tracker.%s() only on the is_reacting()==true arm" % cb.raw.get("name"),
                           "%s reads tracker.%s() on a path where is_reacting() was not checked true" % (mk, cb.raw.get("name")))
@@ -350,10 +375,23 @@ def check(ctx):
                 if fr and lib.tail(mir.fn_name(fr), 2) in ("Query::get", "Query::get_mut") and len(t["args"]) > 1:
                     os_ = origins(m, t["args"][1])
                     src_ok = bool(os_)
+                    # `tracker.x().ok_or(..)?`: the payload of a variant-preserving adapter is the payload of its receiver
+                    for _ in range(3):
+                        nxt = set()
+                        for o in os_:
+                            cfr_ = op_fn(m.blocks[o[1]]["term"]["func"]) if o[0] == "call" else None
+                            if cfr_ is not None and lib.tail(mir.fn_name(cfr_), 2) in lib.VARIANT_PRESERVING and m.blocks[o[1]]["term"]["args"]:
+                                nxt |= set(origins(m, m.blocks[o[1]]["term"]["args"][0]))
+                            else:
+                                nxt.add(o)
+                        if nxt == set(os_):
+                            break
+                        os_ = nxt
                     for o in os_:
                         acc_b = prog.resolve_local(op_fn(m.blocks[o[1]]["term"]["func"])) if o[0] == "call" else None
                         # the key is the Entity a tracker accessor returns (not e.g. the system id dereferenced)
-                        if acc_b is None or lib.impl_self_path(acc_b) not in trackers or not acc_b.local_ty(0).endswith("entity::Entity"):
+                        if acc_b is None or lib.impl_self_path(acc_b) not in trackers \
+                                or not (acc_b.local_ty(0).endswith("entity::Entity") or acc_b.local_ty(0) == "core::option::Option<bevy_ecs::entity::Entity>"):
                             src_ok = False
                     ctx.check(src_ok, "C03.c", "%s::%s:query-keyed-by-tracker-entity" % (rname, m.raw.get("name")), m.loc(b),
                               "payload looked up at the entity the tracker reports",
@@ -414,6 +452,74 @@ def returned_field_path(m):
                 return None
             paths.add(fp)
     return paths.pop() if len(paths) == 1 else None
+
+
+def field_true_heads(m, ty, flag):
+    """blocks entered only where `self.<flag>` (a bool field) was read true"""
+    heads = []
+    for b in sorted(m.reachable):
+        t = m.blocks[b]["term"]
+        if t["k"] != "switch":
+            continue
+        p = op_place(t["op"])
+        neg = False
+        ok = False
+        seen = set()
+        while p is not None and not ok:
+            if p["p"]:
+                ok = p["l"] == 1 and lib.field_of(p) == (ty, flag)
+                break
+            if p["l"] in seen:
+                break
+            seen.add(p["l"])
+            ds = [d for d in m.defs.get(p["l"], []) if d[0] in ("stmt", "call")]
+            if len(ds) != 1 or ds[0][0] != "stmt":
+                break
+            rv = ds[0][3]
+            if "un" in rv and rv["un"]["op"] == "Not":
+                neg = not neg
+                p = op_place(rv["un"]["x"])
+            elif "use" in rv:
+                p = op_place(rv["use"])
+            else:
+                break
+        if not ok:
+            continue
+        tg = {v: bb for v, bb in t["targets"]}
+        if 0 in tg:
+            false_t, true_t = tg[0], t["otherwise"]
+        elif 1 in tg:
+            true_t, false_t = tg[1], t["otherwise"]
+        else:
+            continue
+        heads.append(false_t if neg else true_t)
+    return heads
+
+
+def gated_field(m, ty, flag):
+    """field f when the method returns Option: `Some(self.f)` only on blocks dominated by a flag-true head and `None`
+    otherwise (a gated accessor), else None"""
+    if not m.local_ty(0).startswith("core::option::Option<") or any(True for _ in m.iter_calls()):
+        return None
+    heads = field_true_heads(m, ty, flag)
+    fields = set()
+    n_some = 0
+    for b, i, st in m.iter_stmts():
+        if st["k"] == "assign" and st["place"]["l"] == 0 and not st["place"]["p"]:
+            rv = st["rv"]
+            if "agg" not in rv or rv["agg"].get("adt") != "core::option::Option":
+                return None
+            if rv["agg"].get("vname") == "None":
+                continue
+            if rv["agg"].get("vname") != "Some" or not any(m.dominates(h, b) for h in heads):
+                return None
+            n_some += 1
+            for o in origins(m, rv["agg"]["ops"][0]):
+                if o[0] == "arg" and o[1] == 1 and len(o) >= 3:
+                    fields.add(o[2].lstrip("."))
+                else:
+                    return None
+    return fields.pop() if len(fields) == 1 and n_some else None
 
 
 def option_flag(m):
